@@ -202,6 +202,15 @@ CLAIMS = {
           'Tie: bounding nodes and weights of GriddedPSFModel on dyadic layouts (3x3, 2x2, 2x3, single row/column/point; on nodes, cell edges, outside the hull) and the ImagePSF coordinate transform compared with the Lean model.',
   'note': 'Trusted: Lean kernel + standard axioms; hand model tied by differential testing; scipy RectBivariateSpline, erf. Known finding F19: rotated GaussianPRF is not a pixel integral.',
  },
+ 'C20': {
+  'design_ref': 'DESIGN.md §5 C20',
+  'technique': 'Lean 4 theorems for the logic of the isophote fitter (coordinate-transform twins, sma growth skeleton, corrector choice under fix flags, radius bounds) with the loop skeleton regenerated from the source + correspondence + recovery probes on synthetic galaxies',
+  'text': 'Proved in Lean: the scalar and vectorised forms of EllipseGeometry.to_polar compute the same (radius, angle) for every input (twins_agree); the outward run of semi-major axes is strictly increasing with every later value below maxsma, the inward run strictly decreasing and above max(minsma, 1/2) (outward_spec, inward_spec); with the inward guard read off the source every fitted sma other than sma0 lies in the requested range, the central pixel appears only for minsma = 0, and the sorted list has no repeated sma (fitted_in_range, sorted_strict, source_has_inward_guard); '
+          'the corrector is always chosen among the free parameters, so through any number of iterations, for any harmonic amplitudes and any proposed corrections, a fixed centre keeps exactly its initial value, a fixed positive ellipticity too and with it a fixed position angle; with a free ellipticity a fixed position angle can change only by quarter turns - the re-labelling done when the ellipticity crosses zero (choose_mem, iterate_honours_fix_center, iterate_honours_fix_eps, iterate_fix_pa_mod_quarter_turn); the elliptical radius lies between the semi-minor and semi-major axis (radius_between_axes). '
+          '[partial] the harmonic fit, the image sampling/integration and the size of the corrections are oracles: recovery of centre, ellipticity, position angle and intensity within the reported errors, the model image of build_ellipse_model and the untouched input image are decided by probes on synthetic galaxies (exponential, Gaussian, Sersic; eps 0.05-0.8; any PA; geometric and linear growth; three integration modes; fix flags). '
+          'Tie: to_polar (both forms) vs the Lean model at Float, sma lists of converged fits vs the growth model, the corrector choice vs the numpy expression of the source; growth-loop skeleton regenerated each run (Gen/IsophoteTable.lean).',
+  'note': 'Trusted: Lean kernel + standard axioms; AST extractor; hand model tied by differential testing; scipy least squares and the samplers are not modelled.',
+ },
 }
 
 _todo = 'check not built yet in this round (see DESIGN.md §10 build order); not claimed until its machinery is committed'
